@@ -55,7 +55,7 @@ Section C.
     apply IH; [|assumption]. apply spec_step_vok; assumption.
   Qed.
 
-  Lemma shp_upd_ok g r x : input_ok g r -> shp (conv_kvs g r) (list_done r) x ->
+  Lemma shp_upd_ok g r lost pf x : input_ok g r -> shp (conv_kvs g r) (list_done r) lost pf x ->
     Forall upd_ok (match x with ResUpd us => us | _ => [] end).
   Proof.
     intros Hi H. destruct x; cbn in *; try constructor. eapply Forall_impl; [|exact H].
